@@ -14,6 +14,9 @@ def confirm(d):
     try:
         subprocess.check_call(["git", "-C", "/repo", "worktree", "add", "-q", "--detach", wt, "HEAD"])
         patch = os.path.join(d, "patch_rebased.diff") if os.path.exists(os.path.join(d, "patch_rebased.diff")) else os.path.join(d, "patch.diff")
+        clean_mode = bool(os.environ.get("VERIF_CONFIRM_CLEAN"))  # confirm the corrected twin: demo must exit 0 with it
+        if clean_mode:
+            patch = os.path.join(d, "clean.diff")
         demo = os.path.join(d, "demo.py")
         env = dict(os.environ, PYTHONPATH=wt, PYTHONDONTWRITEBYTECODE="1")
         p0 = subprocess.run(["/venv/bin/python", demo], cwd=wt, env=env, capture_output=True, text=True, timeout=1800)
@@ -29,7 +32,10 @@ def confirm(d):
             r["suite"] = t.stdout.strip().splitlines()[-1] if t.stdout.strip() else t.stderr[-200:]
             r["suite_passed"] = int(m.group(1)) if m else 0
             r["suite_failed"] = "failed" in r["suite"] or "error" in r["suite"].lower()
-        r["confirmed"] = bool(r.get("demo_pristine_exit") == 0 and r.get("patch_applies") and r.get("demo_variant_exit", 0) != 0 and r.get("suite_passed") == 85 and not r.get("suite_failed"))
+        if clean_mode:
+            r["confirmed"] = bool(r.get("demo_pristine_exit") == 0 and r.get("patch_applies") and r.get("demo_variant_exit", 1) == 0 and r.get("suite_passed") == 85 and not r.get("suite_failed"))
+        else:
+            r["confirmed"] = bool(r.get("demo_pristine_exit") == 0 and r.get("patch_applies") and r.get("demo_variant_exit", 0) != 0 and r.get("suite_passed") == 85 and not r.get("suite_failed"))
     except Exception as e:  # noqa
         r["error"] = repr(e)[:300]
         r["confirmed"] = False
